@@ -171,6 +171,16 @@ class LangGen:
         if self.lid == 1301 and name in ("created", "si-expires") or self.lid == 1701 and name == "timestamp":
             return self.rng.choice(DATETIMES)
         r = self.rng.below(10) if forced is None else forced
+        if r in (10, 11, 12, 13):
+            # a CASE VARIANT of the row's enumerated value (must not be taken for the value itself), alone or followed
+            # by a case variant of a value token
+            var = [base.upper(), base.lower(), base.title(), base.swapcase()][r - 10]
+            if var == base:
+                var = base.swapcase() if base.swapcase() != base else base + "X"
+            if self.vals and self.rng.chance(1, 3):
+                v = self.rng.choice(self.vals)[0]
+                var += v.swapcase() if v.swapcase() != v else v
+            return var
         if r == 9:
             return base + 'say "hi" & <go> \'now\' ]]> x ]] y > z'               # characters the XML generator must escape
         if r == 0:
@@ -207,6 +217,11 @@ class LangGen:
                 plan.append((row, 6))
         for row in rows[:3]:
             plan.append((row, 9))
+        for k, row in enumerate(rows):
+            if row[1]:
+                plan.append((row, 10 + k % 4))
+                if len(rows) < 40:
+                    plan.append((row, 10 + (k + 1) % 4))
         for i, (row, forced) in enumerate(plan):
             if cur is None or row[0] in used or len(cur.attrs) >= 3:
                 if cur is not None:
